@@ -3,8 +3,10 @@ import Katib.Props.C04Quiescent
 # A Succeeded Trial holds an objective value and is not EarlyStopped — over every schedule
 
 `C06_succeeded_has_objective`: for every list of simulator operations (no hypothesis on the schedule), every Trial of the
-current store that is Succeeded has an observation in which the objective metric is available, and is not EarlyStopped.
-The trial controller marks Succeeded only in the branch guarded by `IsObservationAvailable` and not-EarlyStopped; every other
+current store that is Succeeded has an observation in which the objective metric is available, and is neither EarlyStopped
+nor Failed nor MetricsUnavailable.
+The trial controller marks Succeeded only in the branch guarded by `IsObservationAvailable` and not-EarlyStopped, reached only
+for a Trial without terminal condition; every other
 status it writes for a Trial that is already Succeeded leaves conditions and observation alone (a Succeeded Trial that is
 not EarlyStopped is not observed again); the early-stopping service only touches Trials that are not completed.
 -/
@@ -12,7 +14,9 @@ namespace Katib.Ctl
 open Katib Katib.Exp
 
 def QOk (st : TrialSt) : Prop :=
-  Cond.has st.conds .succeeded = true → obsAvailable st = true ∧ Cond.has st.conds .earlyStopped = false
+  Cond.has st.conds .succeeded = true →
+    obsAvailable st = true ∧ Cond.has st.conds .earlyStopped = false ∧ Cond.has st.conds .failed = false ∧
+    Cond.has st.conds .metricsUnavailable = false
 
 def QInv (w : World) : Prop := ∀ t ∈ w.trials, QOk t.st
 
@@ -30,7 +34,8 @@ theorem q_finish (t : TrialO) (st : TrialSt) (h : QOk st) : (trialFinish t st).A
   · exact ⟨h, trivial, trivial⟩
 
 theorem q_updateCondition (t : TrialO) (st : TrialSt) (js : JobCond) (now : Nat) (hst : st.conds = t.st.conds)
-    (hns : Cond.has t.st.conds .succeeded = false) : (trialUpdateCondition t st js now).All QJust := by
+    (hns : Cond.has t.st.conds .succeeded = false) (hg : tCompleted t = false ∨ tHas t .earlyStopped = true) :
+    (trialUpdateCondition t st js now).All QJust := by
   have keep : (trialFinish t st).All QJust := q_finish t st (qok_of_not_succeeded (by rw [hst]; exact hns))
   have mark : ∀ (ty : TCT) (r : String) (c : Option Nat), ty ≠ .succeeded →
       (trialFinish t { st with conds := tMark st.conds ty r now, completion := c }).All QJust := by
@@ -51,10 +56,20 @@ theorem q_updateCondition (t : TrialO) (st : TrialSt) (js : JobCond) (now : Nat)
         apply q_finish
         intro _
         simp only [Bool.and_eq_true] at hc
-        refine ⟨hc.1, ?_⟩
-        show Cond.has (tMark st.conds .succeeded rTrialSucceeded now) .earlyStopped = false
-        rw [has_tMark_other _ _ _ (by decide) (by decide)]
-        simpa using hes
+        have hes' : Cond.has st.conds .earlyStopped = false := by simpa using hes
+        have hnc : tCompleted t = false := by
+          rcases hg with h | h
+          · exact h
+          · unfold tHas at h; rw [← hst, hes'] at h; cases h
+        obtain ⟨_, n2, _, _, n5⟩ := not_completed_has hnc
+        unfold tHas at n2 n5
+        refine ⟨hc.1, ?_, ?_, ?_⟩
+        · show Cond.has (tMark st.conds .succeeded rTrialSucceeded now) .earlyStopped = false
+          rw [has_tMark_other _ _ _ (by decide) (by decide)]; exact hes'
+        · show Cond.has (tMark st.conds .succeeded rTrialSucceeded now) .failed = false
+          rw [has_tMark_other _ _ _ (by decide) (by decide), hst]; exact n2
+        · show Cond.has (tMark st.conds .succeeded rTrialSucceeded now) .metricsUnavailable = false
+          rw [has_tMark_other _ _ _ (by decide) (by decide), hst]; exact n5
       · exact keep
     · split
       · split
@@ -75,14 +90,14 @@ theorem q_updateCondition (t : TrialO) (st : TrialSt) (js : JobCond) (now : Nat)
       rw [Cond.has_set_other _ (by decide), hst]; exact hns
     · exact keep
 
-theorem q_observe (v : World) (t : TrialO) (js : JobCond) (now : Nat) (hns : Cond.has t.st.conds .succeeded = false) :
-    (trialObserve v t js now).All QJust := by
+theorem q_observe (v : World) (t : TrialO) (js : JobCond) (now : Nat) (hns : Cond.has t.st.conds .succeeded = false)
+    (hg : tCompleted t = false ∨ tHas t .earlyStopped = true) : (trialObserve v t js now).All QJust := by
   have cont : ∀ st : TrialSt, st.conds = t.st.conds →
       (if (js = .succeeded && st.obs.isNone && !t.push) = true then Prog.done .requeueAfter else trialUpdateCondition t st js now).All QJust := by
     intro st hst
     split
     · trivial
-    · exact q_updateCondition t st js now hst hns
+    · exact q_updateCondition t st js now hst hns hg
   unfold trialObserve
   simp only []
   split
@@ -100,18 +115,25 @@ theorem q_afterJob (v : World) (t : TrialO) (state : JobState) (now : Nat) (hq :
   split
   · exact q_finish t _ hq
   · rename_i hc
+    have hg : tCompleted t = false ∨ tHas t .earlyStopped = true := by
+      cases h1 : tCompleted t with
+      | false => exact Or.inl rfl
+      | true =>
+        cases h2 : tHas t .earlyStopped with
+        | true => exact Or.inr rfl
+        | false => simp [h1, h2] at hc
     have hns : Cond.has t.st.conds .succeeded = false := by
       cases hs : Cond.has t.st.conds .succeeded with
       | false => rfl
       | true =>
         exfalso
-        obtain ⟨_, hes⟩ := hq hs
+        obtain ⟨_, hes, _⟩ := hq hs
         have hcomp : tCompleted t = true := by unfold tCompleted tHas; rw [hs]; rfl
         have : tHas t .earlyStopped = false := hes
         simp [hcomp, this] at hc
     split
     · exact q_finish t _ hq
-    · exact q_observe v t _ now hns
+    · exact q_observe v t _ now hns hg
 
 theorem trialPlan_q (v : World) (k : Key2) (now : Nat) (hv : QInv v) : (trialPlan v k now).All QJust := by
   cases ht : findTrial v k with
@@ -129,10 +151,14 @@ theorem trialPlan_q (v : World) (k : Key2) (now : Nat) (hv : QInv v) : (trialPla
         · apply q_finish
           intro hs
           simp only [Cond.has_set_other _ (show TCT.succeeded ≠ TCT.created by decide)] at hs
-          obtain ⟨a, b⟩ := hq hs
-          refine ⟨a, ?_⟩
-          show Cond.has (Cond.set t.st.conds .created true rTrialCreated now) .earlyStopped = false
-          rw [Cond.has_set_other _ (by decide)]; exact b
+          obtain ⟨a, b, c, d⟩ := hq hs
+          refine ⟨a, ?_, ?_, ?_⟩
+          · show Cond.has (Cond.set t.st.conds .created true rTrialCreated now) .earlyStopped = false
+            rw [Cond.has_set_other _ (by decide)]; exact b
+          · show Cond.has (Cond.set t.st.conds .created true rTrialCreated now) .failed = false
+            rw [Cond.has_set_other _ (by decide)]; exact c
+          · show Cond.has (Cond.set t.st.conds .created true rTrialCreated now) .metricsUnavailable = false
+            rw [Cond.has_set_other _ (by decide)]; exact d
         · split
           · split
             · exact q_finish t _ hq
@@ -404,9 +430,10 @@ theorem init_invQ (es : List ExpInit) : SInvQ (Sim.init es) := by
   rw [this]; exact hM
 
 /-- **C06_succeeded_has_objective**: over every schedule (no hypothesis), a Succeeded Trial holds an observation in which
-    the objective metric is available, and is not EarlyStopped. -/
+    the objective metric is available, and is neither EarlyStopped nor Failed nor MetricsUnavailable. -/
 theorem C06_succeeded_has_objective (es : List ExpInit) (ops : List Op) :
-    ∀ t ∈ (run (Sim.init es) ops).cur.trials, tHas t .succeeded = true → obsAvailable t.st = true ∧ tHas t .earlyStopped = false :=
+    ∀ t ∈ (run (Sim.init es) ops).cur.trials, tHas t .succeeded = true →
+      obsAvailable t.st = true ∧ tHas t .earlyStopped = false ∧ tHas t .failed = false ∧ tHas t .metricsUnavailable = false :=
   (run_invQ ops (init_invQ es)).1.1
 
 end Katib.Ctl
